@@ -10,7 +10,7 @@ if [ "${ALT:-0}" = "1" ]; then
   git -C /repo worktree add -q --detach "$W" HEAD || exit 2
   git -C "$W" apply "$P" || { echo "PATCH DOES NOT APPLY"; git -C /repo worktree remove --force "$W"; exit 1; }
   for prop in "$@"; do
-    ( cd /verif && VERIF_REPO="$W" VERIF_SEED=${VERIF_SEED:-1} ./check "$prop" ${TIER:-quick} 2>&1 | grep -E "^VIOLATION|^KNOWN|^CHECK-BROKEN|^check |key=" | head -8 )
+    ( cd "${VERIF_HOME:-/verif}" && VERIF_REPO="$W" VERIF_SEED=${VERIF_SEED:-1} ./check "$prop" ${TIER:-quick} 2>&1 | grep -E "^VIOLATION|^KNOWN|^CHECK-BROKEN|^check |key=" | head -8 )
   done
   git -C /repo worktree remove --force "$W"
   exit 0
@@ -18,7 +18,7 @@ fi
 cd /repo && git status --short | grep -q . && { echo "/repo not clean"; exit 2; }
 git apply "$P" || { echo "PATCH DOES NOT APPLY to /repo"; exit 1; }
 for prop in "$@"; do
-  ( cd /verif && VERIF_SEED=${VERIF_SEED:-1} ./check "$prop" ${TIER:-quick} 2>&1 | grep -E "^VIOLATION|^KNOWN|^CHECK-BROKEN|^check |key=" | head -8 )
+  ( cd "${VERIF_HOME:-/verif}" && VERIF_SEED=${VERIF_SEED:-1} ./check "$prop" ${TIER:-quick} 2>&1 | grep -E "^VIOLATION|^KNOWN|^CHECK-BROKEN|^check |key=" | head -8 )
 done
 git -C /repo checkout -q -- . ; git -C /repo clean -fdq -e _mutants >/dev/null 2>&1
 git -C /repo status --short
